@@ -26,7 +26,7 @@ def generate(seed, tier):
     yield "ser sizes"
     # the growth loop on its own: capacities from 2 up, positions below / at / above capacity, lengths around the 1.5^k points
     caps = [2, 3, 4, 5, 7, 8, 100, 511, 512, 513]
-    for _ in range(120 if quick else 3000):
+    for _ in range(600 if quick else 6000):
         cap = r.choice(caps)
         pos = r.choice([0, 1, cap - 1, cap, cap + 1, (cap * 3) // 2, (cap * 3) // 2 + 1, cap * 2, r.randint(0, 6000)])
         pos = max(0, pos)
@@ -36,7 +36,7 @@ def generate(seed, tier):
         yield "ser grow %d %d %d" % (cap, pos, tgt)
     # values
     maxdepth = 6 if quick else 30
-    for i in range(500 if quick else 12000):
+    for i in range(3000 if quick else 30000):
         mode = r.random()
         if mode < 0.35:
             t = G.rand_tree(r, r.randint(1, 4), maxlen=r.choice([8, 40, 600]))
